@@ -7,6 +7,7 @@ import warnings
 import pymbolic.primitives as p
 
 from ..c04_streams import CachedArgsStream, ForeignRegistryStream
+from ..c04_streams2 import ArrayTraversalStream, ArrayWalkModelStream, UserNodesStream
 from ..core import Failure, Prop, Stream
 from ..gen import ExprGen, node_types, size
 from ..oracles import scan
@@ -1194,11 +1195,12 @@ def extract_dispatch(ctx=None):
 PROP = Prop(
     id="C04",
     title="Mapper dispatch and the stock traversals reach every node correctly",
-    lean_targets=["PV.Properties.C04"],
+    lean_targets=["PV.Properties.C04", "PV.Properties.C04Stock"],
     extractors=[extract, extract_dispatch],
     streams=[WalkStream(), CombineStream(), DispatchStream(), NamesStream(), FieldsStream(),
              CallbackStream(), DispatchHistoryStream(), CollectorHistoryStream(),
-             ForeignRegistryStream(), CachedArgsStream()],
+             ForeignRegistryStream(), CachedArgsStream(), ArrayTraversalStream(),
+             ArrayWalkModelStream(), UserNodesStream()],
     probes=[probes],
     trusted_base=["Lean 4.33 kernel; axioms propext, Classical.choice, Quot.sound only",
                   "harness/props/c04.py (instrumented mapper subclasses, dynamic class hierarchies)",
@@ -1207,7 +1209,9 @@ PROP = Prop(
                   "map_foreign and of the registry functions of primitives.py; the meaning of its "
                   "statement languages = lean/PV/Model/DispatchTable.lean `dRun`, "
                   "lean/PV/Model/ForeignTable.lean `fRun`)",
-                  "harness/c04_streams.py (registry sandbox, instrumented plain / memoizing traversals)"],
+                  "harness/c04_streams.py (registry sandbox, instrumented plain / memoizing traversals)",
+                  "harness/c04_streams2.py (trees with numpy arrays of every rank; user node classes "
+                  "below every library base class; references by plain recursion over fields / indices)"],
     level_text="Lean theorems (all class hierarchies, handler sets, trees, argument tuples): dispatch "
                "reaches the node's own handler, else the nearest ancestor's the mapper implements, "
                "else the unsupported hook; foreign objects go to their handlers (dispatch_nearest, "
@@ -1224,11 +1228,25 @@ PROP = Prop(
                "what each test refers to, and register_/unregister_constant_class statement by "
                "statement: the regenerated chain routes an object by its kind under the registry of "
                "number classes AT CALL TIME, for every history of registrations "
-               "(foreign_chain_eq_table_current, foreign_history_current).",
+               "(foreign_chain_eq_table_current, foreign_history_current). A node of a user class "
+               "all of whose handler names the mapper reports (no attribute, or Mapper's raising stub) "
+               "ends in an error for every handler table and MRO (unhandled_reported); no stock "
+               "traversal of the current source answers under a base-class name "
+               "(base_handlers_report_current). The WalkMapper row for numpy arrays enumerates the "
+               "entries by index, and with that row the walk of an array of ANY shape is visit, every "
+               "entry once, post_visit (array_walk_ndindex, array_walk_table_current; what Python's "
+               "iteration protocol does instead: array_walk_each_rank2_cex / _rank0_cex).",
     level_note="Trusted: Lean kernel; the readers extract/traversal.py, extract/dispatch.py and the "
                "meaning of their table languages (tied by correspondence streams); instrumented "
-               "mapper subclasses of the harness. multivector / numpy / polynomial handlers are "
+               "mapper subclasses of the harness. multivector / polynomial handlers are "
                "covered only by whole-table checks (rows_ok, fields_once), not by a traversal model; "
+               "numpy arrays: the walk over an array of any rank with leaf entries is modelled "
+               "(aWalkTable on the regenerated map_numpy_array row, array_walk_table_current, stream "
+               "array-walk), arrays inside trees and the identity / combine / collector handlers on "
+               "them by the oracle of array-traversal only; user node classes below the library's "
+               "base classes: which body runs is modelled from the MRO (c04ResolveMro, "
+               "user_node_below_base_reported_current, stream user-nodes), the dependency mappers "
+               "there by the oracle only; "
                "CachedMapper.__call__ is tied through C05's extractor and the dispatch stream. "
                "History streams (several mapper classes in one process in a chosen order; one "
                "collector instance over trees sharing subtrees; the memoizing stock traversals "
